@@ -62,7 +62,7 @@ REST = {
  "C14": ("Lean 4 proof (`= ok` excludes every fault kind; documented panic iff haystack < min_haystack_len; prefilter state machine total) + debug-assertion/overflow-check build of the real code",
          "Machine-checked theorems: no routine faults in its documented domain (all debug_assert!s and checked arithmetic sites of the model are discharged); the packed-pair finders panic exactly when haystack.len() < min_haystack_len; PrefilterState::is_effective is total. Two genuine defects found and fixed (F1, F2 in known_findings.json)."),
  "C15": ("Lean 4 proof over an abstract model of the ifunc cell (any schedule, relaxed loads return any value ever stored) + fresh-process barrier-released multi-threaded runs on three detection outcomes",
-         "Machine-checked theorem C15.any_schedule: every call returns what it returns in isolation, for every number of threads, schedule and load choice. PARTIAL BY NATURE: tearing, the hardware memory model and data races in unsafe Send/Sync impls cannot be expressed in the model (trusted); the extractor checks that the only atomic/interior-mutable state in the crate is the ifunc AtomicPtr."),
+         "Machine-checked theorem C15.any_schedule: every call returns what it returns in isolation, for every number of threads, schedule and load choice; C15.shared_finder / shared_finder_rev: one Finder / FinderRev shared by any number of threads, in every global order of find calls each thread observes what it observes alone (corollary of the C16 refinement). PARTIAL BY NATURE: tearing, the hardware memory model and data races in unsafe Send/Sync impls cannot be expressed in the model (trusted); the extractor checks that the only atomic/interior-mutable state in the crate is the ifunc AtomicPtr."),
  "C16": ("Lean 4 proof (finder op machine: outputs are a function of needle bytes and ops only; as_ref/clone/into_owned invisible to every continuation) + differential correspondence with the needle buffer overwritten after into_owned and with needle and haystack as overlapping windows of one buffer",
          "Machine-checked theorems C16.finder_run_all etc.: every find in any op sequence returns leftmost(haystack, needle) regardless of history; copies behave identically; needle() returns the construction bytes."),
  "C17": ("Lean 4 proof of the ownership/allocation bookkeeping + counting global allocator armed around every real call with the hook recorder off",
